@@ -208,18 +208,25 @@ def run_values(case, ctx: Ctx) -> None:
 # ------------------------------------------------------------------------------------------ statement kinds and errors
 
 FAILING = [f for f in c07.FAILING if not f[2].startswith("<")]
+# result shapes that matter on the wire only (a DictCursor cannot hold them, so they are not in C06's catalogue)
+WIRE_STATEMENTS = list(c06.STATEMENTS) + [
+    ("duplicate-names-same-type", "SELECT K AS X, K + 10 AS X, K + 20 AS X FROM SRC ORDER BY K"),
+    ("duplicate-names-different-types", "SELECT K AS X, V AS X, C_DATE AS X FROM SRC, TT WHERE TT.C_INT = 1 ORDER BY K"),
+    ("duplicate-names-join", "SELECT s.K, t.K, s.V, t.V FROM SRC s JOIN TGT t ON s.K = t.K"),
+    ("empty-result-all-types", "SELECT * FROM TT WHERE C_INT > 1000"),
+]
 
 
 @st.composite
 def _stmt_case(draw, tier):
     group = draw(st.sampled_from(["stmt", "stmt", "stmt", "failing"]))
-    n = len(c06.STATEMENTS) if group == "stmt" else len(FAILING)
+    n = len(WIRE_STATEMENTS) if group == "stmt" else len(FAILING)
     return {"group": group, "idx": draw(st.integers(0, n - 1))}
 
 
 def run_statement(case, ctx: Ctx) -> None:
     group, idx = case["group"], case.get("idx")
-    table = c06.STATEMENTS if group == "stmt" else FAILING if group == "failing" else None
+    table = WIRE_STATEMENTS if group == "stmt" else FAILING if group == "failing" else None
     if table is not None and "kind" in case:
         idx = next((i for i, row in enumerate(table) if row[0] == case["kind"]), None)
     if table is None or not isinstance(idx, int) or not 0 <= idx < len(table):
@@ -435,7 +442,7 @@ PROP = Prop(
             name="statements",
             strategy=_stmt_case,
             run=run_statement,
-            rule=f"One of the {len(c06.STATEMENTS)} statements of C06's catalogue (every statement kind) or one of {len(FAILING)} failing statements of C07's catalogue, on the same setup over HTTP and in process: rows, description, rowcount, and for failures exception type, errno, sqlstate, message must be equal.",
+            rule=f"One of the {len(WIRE_STATEMENTS)} statements of C06's catalogue (every statement kind) plus wire-only shapes (repeated column names, empty result over every type) or one of {len(FAILING)} failing statements of C07's catalogue, on the same setup over HTTP and in process: rows, description, rowcount, and for failures exception type, errno, sqlstate, message must be equal.",
             quick=45,
             thorough=400,
             budget_quick=50,
